@@ -535,9 +535,88 @@ func CopyTree(src, dst string) error {
 // verification) reproduces the source up to isomorphism. allowCheckpoint tolerates a leftover
 // checkpoint file.
 func CheckDump(dir string, src DBSpec, loadBatch int, allowCheckpoint bool) string {
+	return CheckDumpRef(dir, src, loadBatch, allowCheckpoint, nil)
+}
+
+func nonZero(m map[string]int) map[string]int {
+	c := map[string]int{}
+	for k, v := range m {
+		if v != 0 {
+			c[k] = v
+		}
+	}
+	return c
+}
+
+func sameCounts(a, b map[string]int) bool {
+	return fmt.Sprint(nonZero(a)) == fmt.Sprint(nonZero(b))
+}
+
+// manifestConsistent checks what makes a manifest "consistent" beyond retriever's own validation:
+// the dump-level scrub action counts are the sum of the per-graph ones, which are the sum of the
+// per-fragment ones.
+func manifestConsistent(m retriever.Manifest) string {
+	totN, totE := map[string]int{}, map[string]int{}
+	for _, g := range m.Graphs {
+		fn, fe := map[string]int{}, map[string]int{}
+		for _, f := range g.Files {
+			for k, v := range f.ActionCounts {
+				if f.Phase == retriever.PhaseNodes {
+					fn[k] += v
+				} else {
+					fe[k] += v
+				}
+			}
+		}
+		if !sameCounts(fn, g.NodeActionCounts) || !sameCounts(fe, g.EdgeActionCounts) {
+			return fmt.Sprintf("manifest graph %q action counts %v/%v are not the sum of its fragments' %v/%v", g.Name, g.NodeActionCounts, g.EdgeActionCounts, fn, fe)
+		}
+		for k, v := range g.NodeActionCounts {
+			totN[k] += v
+		}
+		for k, v := range g.EdgeActionCounts {
+			totE[k] += v
+		}
+	}
+	if !sameCounts(totN, m.Scrub.NodeActionCounts) || !sameCounts(totE, m.Scrub.EdgeActionCounts) {
+		return fmt.Sprintf("manifest scrub action counts %v/%v are not the sum of the per-graph counts %v/%v", m.Scrub.NodeActionCounts, m.Scrub.EdgeActionCounts, totN, totE)
+	}
+	return ""
+}
+
+// CheckDumpRef is CheckDump plus, when ref is given, "equivalent to the uninterrupted dump": same
+// scrub block, same per-graph counts and action counts as the reference manifest.
+func CheckDumpRef(dir string, src DBSpec, loadBatch int, allowCheckpoint bool, ref *retriever.Manifest) string {
 	m, err := retriever.ReadManifest(dir)
 	if err != nil {
 		return "manifest does not read back: " + err.Error()
+	}
+	if d := manifestConsistent(m); d != "" {
+		return d
+	}
+	if ref != nil {
+		if m.Scrub.Mode != ref.Scrub.Mode || !sameCounts(m.Scrub.NodeActionCounts, ref.Scrub.NodeActionCounts) || !sameCounts(m.Scrub.EdgeActionCounts, ref.Scrub.EdgeActionCounts) {
+			return fmt.Sprintf("manifest scrub block %+v differs from the uninterrupted dump's %+v", m.Scrub, ref.Scrub)
+		}
+		if m.Compression != ref.Compression || m.Driver != ref.Driver || len(m.Graphs) != len(ref.Graphs) {
+			return "manifest header differs from the uninterrupted dump's"
+		}
+		for i := range ref.Graphs {
+			a, b := m.Graphs[i], ref.Graphs[i]
+			if a.Name != b.Name || a.NodeCount != b.NodeCount || a.EdgeCount != b.EdgeCount || !sameCounts(a.NodeActionCounts, b.NodeActionCounts) || !sameCounts(a.EdgeActionCounts, b.EdgeActionCounts) {
+				return fmt.Sprintf("manifest entry of graph %q differs from the uninterrupted dump's", b.Name)
+			}
+		}
+		if (m.Metrics == nil) != (ref.Metrics == nil) {
+			return "metrics block presence differs from the uninterrupted dump's"
+		}
+		if m.Metrics != nil {
+			for i := range ref.Metrics.Graphs {
+				if i >= len(m.Metrics.Graphs) || m.Metrics.Graphs[i].Fingerprint != ref.Metrics.Graphs[i].Fingerprint {
+					return "metrics fingerprint differs from the uninterrupted dump's"
+				}
+			}
+		}
 	}
 	if err := retriever.VerifyManifestFiles(dir, m); err != nil {
 		return "manifest does not describe the files on disk: " + err.Error()
